@@ -230,7 +230,7 @@ func (ti *TypeInfo) structSort(t types.Type, st *types.Struct) string {
 	ti.structNm[key] = name
 	var fs, ss []string
 	for i := 0; i < st.NumFields(); i++ {
-		fs = append(fs, fmt.Sprintf("%s.%s", name, smtIdent(st.Field(i).Name())))
+		fs = append(fs, fmt.Sprintf("%s.%s", name, fieldIdent(st, i)))
 		ss = append(ss, ti.sortOf(st.Field(i).Type()))
 	}
 	if len(fs) == 0 {
@@ -244,7 +244,16 @@ func (ti *TypeInfo) structSort(t types.Type, st *types.Struct) string {
 func (ti *TypeInfo) fieldAcc(t types.Type, i int) string {
 	st := t.Underlying().(*types.Struct)
 	name := ti.structSort(t, st)
-	return fmt.Sprintf("%s.%s", name, smtIdent(st.Field(i).Name()))
+	return fmt.Sprintf("%s.%s", name, fieldIdent(st, i))
+}
+
+// fieldIdent: the accessor name of field i; blank fields (several `_` in one struct, e.g. the noCopy
+// markers of sync/atomic types) are numbered.
+func fieldIdent(st *types.Struct, i int) string {
+	if st.Field(i).Name() == "_" {
+		return fmt.Sprintf("_blank%d", i)
+	}
+	return smtIdent(st.Field(i).Name())
 }
 
 func (ti *TypeInfo) zero(t types.Type) Term {
